@@ -136,7 +136,7 @@ def run(facts, res):
                 res.violation("O2", "%s|state-changed-before-write-succeeded:%s" % (w.path, fld.split(" ")[0]),
                               "%s mutates %s (%s) on a path where the adapter write has not (yet) succeeded: after a failed "
                               "commit the staged changes would be gone" % (w.path, fld, t.callee.name), w.loc(t.line))
-    res.floor("O2", "state mutations in raw writers", n2, 3)
+    res.floor("O2", "state mutations in raw writers", n2, 1)
 
     # ------------------------------------------------------------------ O3
     if len(block_sites) == 1:
@@ -179,7 +179,7 @@ def run(facts, res):
             if not handled:
                 res.violation("O4", "%s|write-result-dropped:%s" % (b.path, cal.name),
                               "%s ignores the Result of %s: a failed storage write would go unnoticed" % (b.path, cal.target()), s.loc())
-    res.floor("O4", "raw write call sites", n4, 8)
+    res.floor("O4", "raw write call sites", n4, 4)
 
     # ------------------------------------------------------------------ O5
     m = facts.body("melda::Melda::meld")
@@ -198,7 +198,7 @@ def run(facts, res):
                 res.instance("O5", "%s: key %s and bytes %s derive from the same element: %s" % (cb.path, fmt(k, 4), fmt(v, 4), ok), cb.loc(t.line))
                 if not ok:
                     res.violation("O5", "%s|write-mixes-items" % cb.path, "%s writes bytes that do not derive from the item named by the key" % cb.path, cb.loc(t.line))
-    res.floor("O5", "meld raw writes", n5, 3)
+    res.floor("O5", "meld raw writes", n5, 1)
 
 
 def _result_handled(body, block, dest):
